@@ -89,34 +89,27 @@ crate::harnesses! {
     #[cfg_attr(kani, kani::unwind(9))]
     fn tok_standard_alpha_len6() { tok_body!(lexical_util::format::STANDARD, 6, 1) }
 
-    /// long exponents, cheap shape: "1e" + optional sign + one symbolic digit + 20 digits '9': the exponent accumulation
-    /// stops at the saturation threshold (no i64 overflow, no panic) and the whole input is consumed.
+    /// long exponents, cheap shape: "1e-" + one symbolic digit + 19 digits '9' (20 digits overflow i64 if accumulated):
+    /// the exponent accumulation stops at the saturation threshold (no i64 overflow, no panic), the input is consumed.
     /// @prop C10 C01 C11
     /// @feat default radix_format
-    /// @bound inputs of the shape 1e[+-]?[0-9]9{20}
+    /// @bound inputs of the shape 1e-[0-9]9{19}
     /// @fn lexical-parse-float::parse::parse_number (exponent accumulation saturating at 0x10000000)
     /// @timeout 900
-    #[cfg_attr(kani, kani::unwind(26))]
+    #[cfg_attr(kani, kani::unwind(24))]
     fn tok_exponent_saturates() {
         const F: u128 = lexical_util::format::STANDARD;
         let d: u8 = any();
         assume(d >= b'0' && d <= b'9');
-        let sign: u8 = any();
-        assume(sign <= 2);
-        let mut buf = [b'9'; 24];
-        buf[0] = b'1'; buf[1] = b'e';
-        let mut n = 2;
-        if sign == 1 { buf[2] = b'+'; n = 3; } else if sign == 2 { buf[2] = b'-'; n = 3; }
-        buf[n] = d;
+        let mut buf = [b'9'; 23];
+        buf[0] = b'1'; buf[1] = b'e'; buf[2] = b'-'; buf[3] = d;
         let opts = Options::new();
-        let r = lexical_parse_float::parse::parse_complete_number::<F>(buf[..n + 21].bytes::<F>(), false, &opts);
-        vcheck!(r.is_ok(), "a 21-digit exponent is accepted");
+        let r = lexical_parse_float::parse::parse_complete_number::<F>(buf.bytes::<F>(), false, &opts);
+        vcheck!(r.is_ok(), "a 20-digit exponent is accepted");
         if let Ok(num) = r {
             vcheck!(num.mantissa == 1, "mantissa of 1e<digits>");
-            if sign == 2 { vcheck!(num.exponent <= -0x10000000, "negative 21-digit exponent saturates below -2^28"); }
-            else { vcheck!(num.exponent >= 0x10000000, "positive 21-digit exponent saturates above 2^28"); }
+            vcheck!(num.exponent <= -0x10000000, "negative 20-digit exponent saturates below -2^28");
         }
-        cover(sign == 2);
     }
 
     /// long exponents: "1e" + optional sign + 21 symbolic digits: no overflow/panic, saturating exponent, count == len.
